@@ -146,3 +146,9 @@ Proof.
   destruct (c_auth c), (c_ign c), (c_mux c), to_remote; cbn [app]; rewrite <- ?app_assoc; cbn [app]; reflexivity.
 Qed.
 Print Assumptions gen_scp_argv_is_the_model.
+
+(* ---- board/uboot.py: UBootShell.env (setenv / printenv and the slice of the printed line) ---- *)
+Theorem gen_ub_env_is_the_model :
+  forall var value sts c, gen_ub_env var value sts c = ub_env var value sts c.
+Proof. intros var value sts c. reflexivity. Qed.
+Print Assumptions gen_ub_env_is_the_model.
